@@ -712,6 +712,9 @@ def call_method(sx, obj, attr, args, kwargs, st, node):
             x = z3.Const(fresh_name("ss"), t.elem.sort())
             return ok(st, Val(V.Bool, z3.ForAll([x], z3.Implies(z3.Select(obj.term, x), z3.Select(other.term, x)))))
         return B.binop(sx, ast.BitAnd() if attr == "intersection" else ast.BitOr(), obj, other, st, node)
+    if isinstance(t, V.Dict) and attr in ("values", "keys", "items") and not args:
+        # iteration over a dictionary VALUE: yields the entries of its domain (ASSUMED: each key once, in some order)
+        return ok(st, Conc(DictIter(obj, attr)))
     if isinstance(t, V.Dict) and attr == "get":
         k = sx.coerce(args[0], t.k, st)
         dflt = args[1] if len(args) > 1 else NONE
@@ -729,6 +732,31 @@ def call_method(sx, obj, attr, args, kwargs, st, node):
     if m is not None:
         return m
     raise Unsupported("method %s on %r" % (attr, t), node)
+
+
+class DictIter:
+    def __init__(self, d, what):
+        self.d = d
+        self.what = what
+
+    def __pyvc_iter__(self, sx, st, node):
+        return ("opaque", self)
+
+    def __pyvc_len__(self, sx, st, node):
+        return [R(st, Val(V.Int, self.d.ty.size(self.d.term)))]
+
+    def next(self, sx, st, k):
+        t = self.d.ty
+        key = sx.fresh(t.k, "dkey", st)
+        st.assume(z3.Select(t.dom(self.d.term), key.term))
+        val = Val(t.v, z3.Select(t.map(self.d.term), key.term))
+        for w in t.v.wellformed(val.term):
+            st.assume(w)
+        if self.what == "keys":
+            return [R(st, key)]
+        if self.what == "values":
+            return [R(st, val)]
+        return [R(st, sx.mk_tuple([key, val], st))]
 
 
 def mutable_method(sx, ref, attr, args, kwargs, st, node):
@@ -1015,6 +1043,11 @@ def str_method(sx, obj, attr, args, kwargs, st, node):
     m = sx.reg.value_method(sx, obj, attr, args, kwargs, st, node)
     if m is not None:
         return m
+    if not sx.spec_mode:
+        # a str/bytes method nobody modelled: an immutable receiver cannot be changed, the result is a value without contract
+        from .sx import Unknown
+        sx.uncontracted.append("str.%s (line %s)" % (attr, getattr(node, "lineno", "?")))
+        return [R(st, Conc(Unknown("str.%s()" % attr))), R(st.fork(), None, Exc("Exception", exact=False))]
     raise Unsupported("str method %s" % attr, node)
 
 
